@@ -545,9 +545,8 @@ def sigkill_conformance(task):
                 if m == k:
                     break
         # temporary file names are random per process: compare modulo them
-        tmp = re.compile(r"[0-9a-f]{32}")
-        got = {tmp.sub("UUID", k): v for k, v in got.items()}
-        snap = {tmp.sub("UUID", k): v for k, v in snap.items()}
+        got = {fsseam.norm_rel(k): v for k, v in got.items()}
+        snap = {fsseam.norm_rel(k): v for k, v in snap.items()}
         if fsseam.snap_hash(got) != fsseam.snap_hash(snap):
             mismatch.append("%s/%s kill at op %d: real tree differs from the "
                             "materialised state" % (name, wl, k))
